@@ -1,13 +1,49 @@
 #!/bin/bash
 # Build the model checker (no-op when nothing changed; the library is a path dependency on /repo, so any edit to
 # /repo's working tree is rebuilt) and run it.  usage: run.sh check <Cxx> --tier quick|thorough | run.sh replay <file>
+#
+# Two builds of the same harness + library: the primary one (optimised, debug assertions and overflow checks ON -- what
+# `cargo test` exercises) and "nodebug" (both OFF -- what `cargo build --release` gives users of the library). Every check
+# runs on the primary build; the checks listed in SECOND_PASS (all checks in the thorough tier) run a second time on the
+# nodebug build. Exit code: 1 if either pass reports a violation, else 2 if either had a machinery error, else 0.
 set -u
 export CARGO_NET_OFFLINE=true
+SECOND_PASS="C02 C05 C13 C14 C16 C20"
 cd /verif/mc || exit 2
-if ! cargo build --release --offline >/verif/target/build.log 2>&1; then
-  mkdir -p /verif/target
-  cargo build --release --offline 2>&1 | tail -40
-  echo "MACHINERY-ERROR build failed"
-  exit 2
+mkdir -p /verif/target
+build() {  # $1 = cargo profile flag, $2 = log
+  if ! cargo build $1 --offline >$2 2>&1; then
+    tail -40 $2
+    echo "MACHINERY-ERROR build failed ($1)"
+    exit 2
+  fi
+}
+build --release /verif/target/build.log
+primary=/verif/target/release/bppmc
+second=/verif/target/nodebug/bppmc
+if [ "${1:-}" = "replay" ]; then
+  prof=$(jq -r '.build_profile // ""' "$2" 2>/dev/null)
+  case "$prof" in
+    nodebug*) build "--profile nodebug" /verif/target/build-nodebug.log; BPPMC_PROFILE=nodebug exec $second "$@" ;;
+    *) exec $primary "$@" ;;
+  esac
 fi
-exec /verif/target/release/bppmc "$@"
+if [ "${1:-}" != "check" ]; then exec $primary "$@"; fi
+id=${2:-}
+tier=${VERIF_TIER:-quick}
+prev=""
+for a in "$@"; do [ "$prev" = "--tier" ] && tier=$a; prev=$a; done
+$primary "$@"; c1=$?
+c2=0
+if [ "$tier" = "thorough" ] || echo " $SECOND_PASS " | grep -q " $id "; then
+  build "--profile nodebug" /verif/target/build-nodebug.log
+  echo "[$id] ---- second pass: nodebug build (debug assertions and overflow checks off)"
+  BPPMC_PROFILE=nodebug $second "$@" | sed -e "/^VIOLATION\|^KNOWN-FINDING\|^MACHINERY-ERROR/!s/^/[nodebug] /"; c2=${PIPESTATUS[0]}
+  ev=${BPPMC_VERIF_DIR:-/verif}/evidence
+  if [ -f $ev/$id.json ] && [ -f $ev/$id.nodebug.json ]; then
+    jq --slurpfile s $ev/$id.nodebug.json --argjson code $c2 '.coverage.second_pass = {build_profile: $s[0].coverage.build_profile, exit_code: $code, evidence_file: ("evidence/" + .property_id + ".nodebug.json"), states: $s[0].coverage.states, evaluations: $s[0].coverage.evaluations, violations: $s[0].violations}' $ev/$id.json > $ev/$id.json.tmp && mv $ev/$id.json.tmp $ev/$id.json
+  fi
+fi
+for c in $c1 $c2; do [ $c -eq 1 ] && exit 1; done
+for c in $c1 $c2; do [ $c -ne 0 ] && exit 2; done
+exit 0
